@@ -137,7 +137,36 @@ class Tr:
                     self.err(st, 'return of something that is not a name or a tuple of names')
             else:
                 self.err(st, 'unsupported statement %s' % type(st).__name__)
-        return sink_draws(out)
+        return merge_ifs(sink_draws(out))
+
+
+def local_writes(block):
+    """local NAMES (not heap fields) a block may bind"""
+    w = set()
+    for st in block:
+        k = st[0]
+        if k in ('copy', 'draw', 'grow', 'assign'):
+            w.add(st[1])
+        elif k == 'find':
+            w |= {st[1], st[2]}
+        elif k == 'if':
+            w |= local_writes(st[2]) | local_writes(st[3])
+    return w
+
+
+def merge_ifs(block):
+    """`if c: A else: B` directly followed by `if c: C else: D` is `if c: A; C else: B; D` when c only reads local names that neither A
+    nor B binds (the heap writes of A / B cannot change a local flag): the canonical form is the merged one."""
+    out = []
+    for st in block:
+        if out and st[0] == 'if' and out[-1][0] == 'if' and out[-1][1] == st[1] \
+                and not (cond_names(st[1]) & (local_writes(out[-1][2]) | local_writes(out[-1][3]))) \
+                and not any(x[0] == 'return' for x in out[-1][2] + out[-1][3]):
+            prev = out.pop()
+            out.append(('if', st[1], merge_ifs(prev[2] + st[2]), merge_ifs(prev[3] + st[3])))
+        else:
+            out.append(st)
+    return out
 
 
 def clean(stmts):
